@@ -348,6 +348,33 @@ func c11(c *Ctx) (*report.Result, error) {
 			}
 		}
 		res.Check(ok, "O11.3", "dialer: connMap[addr] under the read lock, error when absent", fnPos(c.Prog, d), "ok", why)
+		// the session's Open (a call through the looked-up function value) runs outside the lock: a dial that hangs on
+		// a stalled session would otherwise hold the read lock, the next UpdateState (write lock, called by the manager
+		// under its table lock) would queue behind it, and with a writer waiting every other dial blocks too
+		for _, sec := range flow.Sections(d) {
+			if sec.Lock.Field != "connMapLock" {
+				continue
+			}
+			bad := ""
+			for _, ins := range sec.Instrs {
+				call, isCall := ins.(ssa.CallInstruction)
+				if !isCall {
+					continue
+				}
+				if _, isDefer := ins.(*ssa.Defer); isDefer {
+					continue
+				}
+				cc := call.Common()
+				if cc.IsInvoke() || flow.StaticCallee(cc) != nil {
+					continue
+				}
+				if _, isB := cc.Value.(*ssa.Builtin); isB {
+					continue
+				}
+				bad = instrPos(c.Prog, ins)
+			}
+			res.Check(bad == "", "O11.3", "dialer: the session is opened after connMapLock was released", instrPos(c.Prog, sec.Lock.Instr), "no call through a function value inside the section", "the looked-up connection function is called at "+bad+" while connMapLock is still read-locked: a hanging Open() blocks the next session-list update (and, behind the waiting writer, every other dial), so new sessions cannot be dialled and dead ones are not dropped")
+		}
 	}
 	if f := resolve(c, res, "O11.3", anchor{"transport/grpcutil", "", "NewMultiClientConn"}); f != nil {
 		okR, okD := false, false
